@@ -783,3 +783,23 @@ val program_of_symbols :
   symbol list -> char list list -> (char list list * sprogram) option
 
 val program_of_script : char list -> (char list list * sprogram) option
+
+val splitlines_keep : char list -> char list -> char list list
+
+val concat_s : char list list -> char list
+
+val join_s : char list -> char list list -> char list
+
+val prefix8 : char list
+
+val indent8 : char list -> char list
+
+val default_converter : char list -> char list -> char list
+
+val converted : symbol -> char list option
+
+val somes_of : 'a1 option list -> 'a1 list
+
+val equations_block : symbol list -> char list
+
+val block_of_script : char list -> char list option
